@@ -176,7 +176,16 @@ func (g *c15Gen) record(addr, refID, link string) (sigRecord, string) {
 }
 
 func (g *c15Gen) tamper(rec sigRecord) (sigRecord, string) {
-	switch g.rng.Intn(6) {
+	switch g.rng.Intn(9) {
+	case 6:
+		rec.Certificate = ""
+		return rec, "certificate-empty"
+	case 7:
+		rec.Algorithm = ""
+		return rec, "algorithm-empty"
+	case 8:
+		rec.Signature = ""
+		return rec, "signature-empty"
 	case 0:
 		b, _ := base64.StdEncoding.DecodeString(rec.Signature)
 		if len(b) > 10 {
